@@ -805,14 +805,36 @@ def rule_r4(chk) -> None:
                 ok, reason = False, "the SELECT and the UPDATE are not inside one transaction or one keyed-lock region: two resumers can both claim the run"
             chk.ob("C26.R4", f"{cls.name}.try_begin_resume reads and writes the row in one atomic region", ok, m=m, node=s.call, fn=fn,
                    instance="resume:atomic", reason=reason)
-            # guarded by the released / crashed condition, and never when active
-            guarded = False
+            # case analysis on the row's state: never claimed when active, claimed when released, and from `releasing` only
+            # when a crash timeout is set and has elapsed
+            from ..astx import facts_given
+            subj = None
+            for x in ast.walk(fn):
+                if isinstance(x, ast.Assign) and len(x.targets) == 1 and isinstance(x.targets[0], ast.Name) and isinstance(x.value, ast.Call) and last(call_name(x.value)) == ename:
+                    subj = x.targets[0].id
+            if subj is None:
+                raise AnchorError(f"C26.R4: `{cls.name}.try_begin_resume` does not decode the row's state into a {ename}")
+            domain = [f"{ename}.{k}" for k in members]
+            tmo = fn.args.args[2].arg if len(fn.args.args) > 2 else None
+            if tmo is None:
+                raise AnchorError(f"C26.R4: `{cls.name}.try_begin_resume` has no crash-timeout parameter")
+            guarded, why = True, ""
             for n in cfg.nodes_of(up_st):
-                for t, lab in cfg.guards(n):
-                    if t.kind == "test" and lab == "T" and f"{ename}.released" in ast.unparse(expand(t.ast.test, t.ast)):
-                        guarded = True
+                for k in members:
+                    reach_k, facts_k = facts_given(cfg, n, subj, f"{ename}.{k}", domain, mod=m)
+                    if k == "released":
+                        if not reach_k:
+                            guarded, why = False, "a `released` run can never be claimed (the resume would wait forever)"
+                    elif k == "releasing":
+                        if reach_k:
+                            set_ = (f"{tmo} is None", False) in facts_k or (f"None is {tmo}", False) in facts_k
+                            elapsed = any((a_.startswith(f"{tmo} < ") and pol) or (a_.endswith(f" < {tmo}") and not pol) for a_, pol in facts_k)
+                            if not (set_ and elapsed):
+                                guarded, why = False, f"a run that is still `releasing` is claimed without the crash timeout being set and elapsed (facts on that path: {sorted(facts_k)[:6]})"
+                    elif reach_k:
+                        guarded, why = False, f"the claiming UPDATE is reachable when the row's state is `{k}`"
             chk.ob("C26.R4", f"{cls.name}.try_begin_resume claims only from `released` (or a timed-out `releasing`)", guarded, m=m, node=s.call, fn=fn,
-                   instance="resume:guard", reason="the claiming UPDATE is not dominated by a test on RunLifecycleState.released")
+                   instance="resume:guard", reason=why or "the claiming UPDATE is not dominated by a test on RunLifecycleState.released")
         # ownership: `released` returned only through the UPDATE; nothing else returned after it
         up_nodes = [n for s in ups for n in cfg.nodes_of(enclosing_stmt(s.call))]
         rets_owner, rets_other = [], []
@@ -1158,6 +1180,10 @@ TWINS = [
     Twin("R5 reload called without the lock", _SRV, "        async with self._reload_lock(run_id):\n            await self._ensure_active_run_locked(run_id)\n", "        await self._ensure_active_run_locked(run_id)\n", "C26.R5"),
     Twin("R5 mark active only after the store write", _SRV, "        self._active_run_ids.add(run_id)\n        await self._store.update_handler_status(run_id, idle_since=None)\n", "        await self._store.update_handler_status(run_id, idle_since=None)\n        self._active_run_ids.add(run_id)\n", "C26.R5"),
     Twin("R5 basic runtime accepts a duplicate id", _BASIC, "        if run_id in self._queues:\n            # not supported", "        if False:\n            # not supported", "C26.R5"),
+    Twin("R4 resume claims a releasing run before the crash timeout", _LIFE, "                    and (datetime.now(timezone.utc) - row[\"updated_at\"]).total_seconds()\n                    > crash_timeout_seconds\n", "                    and (datetime.now(timezone.utc) - row[\"updated_at\"]).total_seconds()\n                    < crash_timeout_seconds\n", "C26.R4"),
+    Twin("R4 resume claims any releasing run", _LIFE, "                    state == RunLifecycleState.releasing\n                    and crash_timeout_seconds is not None\n                    and (datetime.now(timezone.utc) - row[\"updated_at\"]).total_seconds()\n                    > crash_timeout_seconds\n", "                    state == RunLifecycleState.releasing\n", "C26.R4"),
+    Twin("R4 resume claims an active run", _LIFE, "                if state == RunLifecycleState.active:\n                    return None\n                if state == RunLifecycleState.released or (\n                    state == RunLifecycleState.releasing\n                    and crash_timeout_seconds is not None\n                    and (datetime.now(timezone.utc) - row[\"updated_at\"])", "                if state == RunLifecycleState.active and crash_timeout_seconds is None:\n                    return None\n                if state != RunLifecycleState.releasing or (\n                    state == RunLifecycleState.releasing\n                    and crash_timeout_seconds is not None\n                    and (datetime.now(timezone.utc) - row[\"updated_at\"])", "C26.R4"),
+    Twin("R4 benign: resume guard as nested early returns", _LIFE, "                if state == RunLifecycleState.released or (\n                    state == RunLifecycleState.releasing\n                    and crash_timeout_seconds is not None\n                    and (datetime.now(timezone.utc) - row[\"updated_at\"]).total_seconds()\n                    > crash_timeout_seconds\n                ):\n                    await conn.execute(", "                if state == RunLifecycleState.releasing:\n                    if crash_timeout_seconds is None or not (datetime.now(timezone.utc) - row[\"updated_at\"]).total_seconds() > crash_timeout_seconds:\n                        return RunLifecycleState.releasing\n                if True:\n                    await conn.execute(", None),
     Twin("R5 resume does not await the old workflow", _DBI, "            handle = await DBOS.retrieve_workflow_async(run_id)\n            await handle.get_result()\n", "            handle = await DBOS.retrieve_workflow_async(run_id)\n            handle.get_status\n", "C26.R5"),
     Twin("R5 resume for any non-active state", _DBI, "            if result == RunLifecycleState.released:\n", "            if result != RunLifecycleState.active:\n", "C26.R5"),
     Twin("R5 benign: reversed comparison", _DBI, "            if result == RunLifecycleState.released:\n", "            if RunLifecycleState.released == result:\n", None),
